@@ -1,0 +1,77 @@
+//go:build verif
+
+package routetab
+
+import (
+	"sort"
+	"time"
+
+	"github.com/ethereum/go-ethereum/common"
+	"github.com/gauss-project/aurorafs/pkg/boson"
+	"github.com/gauss-project/aurorafs/pkg/storage"
+)
+
+// Verification hooks (build tag `verif` only): exported access to the unexported route table
+// and pending table.  Nothing here changes behaviour; with the tag off the file is excluded.
+
+// VerifNewRouteTable exports newRouteTable.
+func VerifNewRouteTable(self boson.Address, store storage.StateStorer) *Table {
+	return newRouteTable(self, store)
+}
+
+// VerifEachPath calls fn for every path held in memory (also those no route refers to).
+func (t *Table) VerifEachPath(fn func(key common.Hash, p *Path)) {
+	t.paths.Range(func(k, v interface{}) bool {
+		fn(k.(common.Hash), v.(*Path))
+		return true
+	})
+}
+
+// VerifRoutes returns a copy of the in-memory target -> routes map.
+func (t *Table) VerifRoutes() map[common.Hash][]TargetRoute {
+	t.mu.RLock()
+	defer t.mu.RUnlock()
+	out := make(map[common.Hash][]TargetRoute, len(t.routes))
+	for k, v := range t.routes {
+		out[k] = append([]TargetRoute(nil), v...)
+	}
+	return out
+}
+
+// VerifPending is the unexported pending table.
+type VerifPending = pendCallResTab
+
+// VerifNewPendCallResTab exports newPendCallResTab.
+func VerifNewPendCallResTab() *VerifPending { return newPendCallResTab() }
+
+// VerifResp lists, per target key, the sources waiting for a response (in arrival order) and
+// whether each one carries a result channel.
+func (pend *pendCallResTab) VerifResp() map[common.Hash][]PendCallResItem {
+	pend.mu.RLock()
+	defer pend.mu.RUnlock()
+	out := make(map[common.Hash][]PendCallResItem, len(pend.respList))
+	for k, v := range pend.respList {
+		for _, it := range v {
+			out[k] = append(out[k], *it)
+		}
+	}
+	return out
+}
+
+// VerifReqKeys lists the request-log keys (target.String()+next.String()), sorted.
+func (pend *pendCallResTab) VerifReqKeys() []string {
+	var out []string
+	pend.reqList.Range(func(k, _ interface{}) bool {
+		out = append(out, k.(string))
+		return true
+	})
+	sort.Strings(out)
+	return out
+}
+
+// VerifTable / VerifPendingCalls give access to the tables of a running Service.
+func (s *Service) VerifTable() *Table               { return s.routeTable }
+func (s *Service) VerifPendingCalls() *VerifPending { return s.pendingCalls }
+
+// VerifSetFindTimeout sets the default FindRoute timeout (used by GetNextHopRandomOrFind).
+func VerifSetFindTimeout(d time.Duration) { findTimeOut = d }
